@@ -59,6 +59,20 @@ Theorem c15_str_model_meets_spec : forall w a b bits,
 Proof. exact str_oracle_accepts_model. Qed.
 Print Assumptions c15_str_model_meets_spec.
 
+(* the (const Char_T * ) overloads of String and StringView: the same six results, the right operand
+   being what precedes its first NUL (StringUtils::Count); identical to the object form when it holds no NUL *)
+Theorem c15_cstring_overloads : forall w a b,
+  cstr_ops w a b = Some (ops_of_cmp (lex_cmp w a (cstr_cut b))) /\
+  (~ In 0 b -> cstr_ops w a b = str_ops w a b) /\
+  ~ In 0 (cstr_cut b) /\ (cstr_cut b = b \/ exists r, b = cstr_cut b ++ 0 :: r).
+Proof. exact (fun w a b => conj (cstr_ops_spec w a b) (conj (cstr_ops_no_nul w a b) (cstr_cut_spec b))). Qed.
+Print Assumptions c15_cstring_overloads.
+
+(* HAItem_T / HLItem_T  < > <= >= ==  are the results of the same comparison on the keys *)
+Theorem c15_item_operators : forall w ka kb, item_ops w ka kb = Some (item_ops_of_cmp (lex_cmp w ka kb)).
+Proof. exact item_ops_spec. Qed.
+Print Assumptions c15_item_operators.
+
 Theorem c15_prefix_sorts_first : forall w a x b,
   str_lt w a (a ++ x :: b) = true /\ str_gt w (a ++ x :: b) a = true /\
   str_le w a (a ++ x :: b) = true /\ str_ge w (a ++ x :: b) a = true.
